@@ -260,7 +260,7 @@ CLAIMED = {
          "equals 'one caption per maximal run of equal (start,end), nodes joined by breaks' (merge_runs), a singleton run is unchanged "
          "(merge_others_untouched), merging twice = once (merge_idempotent), runs partition the input (runs_flatten), all captions of a run have the times of its first (runs_uniform) and neighbouring merged captions never "
          "have the same times, i.e. runs are maximal (merged_neighbours_differ), a list without concurrent neighbours is returned as it is (merge_no_concurrent), the merged list holds all input nodes plus exactly one break per joined caption (merge_node_count) and every input caption's nodes occur contiguous and in order in a merged caption of the same times (merge_keeps_each), the result is never longer than the input and empty only for an empty input (merge_length_le); adjust_caption_timing's loop "
-         "equals map(t*skew+offset) then filter(start>=0) (adjust_affine_filter), and clause by clause: the surviving node lists are a subsequence of the input's (adjust_nodes_sublist), a caption survives iff its new start is not negative (adjust_mem_iff, adjust_length), durations scale by the skew whatever the offset (retime_duration), nothing is dropped for skew, offset, starts >= 0 (adjust_none_dropped), skew 1 / offset 0 is the identity (adjust_identity), a non-negative skew keeps captions sorted by start (adjust_keeps_sorted). Correspondence: random multi-language sets with runs of every "
+         "equals map(t*skew+offset) then filter(start>=0) (adjust_affine_filter), and clause by clause: the surviving node lists are a subsequence of the input's (adjust_nodes_sublist), a caption survives iff its new start is not negative (adjust_mem_iff, adjust_length), durations scale by the skew whatever the offset (retime_duration), nothing is dropped for skew, offset, starts >= 0 (adjust_none_dropped), skew 1 / offset 0 is the identity (adjust_identity), a non-negative skew keeps captions sorted by start (adjust_keeps_sorted) and then drops a prefix only - if a caption survives every later-starting one does (adjust_drops_prefix). Correspondence: random multi-language sets with runs of every "
          "length/position, exact Fraction and float skews, offsets of both signs, node identity tracked by id()."),
    ref="§3 C19", technique="Lean 4 proof (induction over the caption list with the loop state as invariant) + differential correspondence",
    note=NOTE_COMMON + "Float skews are compared to the exact rational model within 1e-9 relative tolerance; merge theorems assume every caption has at least one node (enforced by Caption.__init__)."),
